@@ -127,13 +127,15 @@ Fixpoint handle_event (stk : list frame) (id : Z) : list frame * list act :=
 
 (* every write method of ControllerWithEvents has the same shape (CreateTransaction, RevertTransaction, Save/Delete
    metadata on transactions/accounts, InsertSchema): call the underlying controller; on error return; if
-   !parameters.DryRun then handleEvent.  The idempotencyHit flag is NOT consulted (suspect S-31b). *)
-Definition ev_write (stk : list frame) (in_tx : bool) (s : mst) (w : write) : mst * list frame * list act * wres :=
+   !parameters.DryRun && !idempotencyHit then handleEvent.
+   [pf] ("pre-fix") = true selects the HISTORICAL behaviour before the repair of finding KF-C31-replay-republishes: the
+   idempotencyHit flag was not consulted and a replay published the event of the stored log again (suspect S-31b). *)
+Definition ev_write (pf : bool) (stk : list frame) (in_tx : bool) (s : mst) (w : write) : mst * list frame * list act * wres :=
   let '(s1, tr, r) := forge_log in_tx s w in
   match r with
   | RsErr => (s1, stk, tr, r)
-  | RsOk id _ =>
-    if w_dry w then (s1, stk, tr, r)
+  | RsOk id hit =>
+    if w_dry w || (negb pf && hit) then (s1, stk, tr, r)
     else let '(stk', out) := handle_event stk id in (s1, stk', tr ++ out, r)
   end.
 
@@ -151,7 +153,8 @@ Definition ctrl_rollback (s : mst) : list act := if cancelled s then [] else [Sq
 
 (* BeginTX returns {parent: c, hasTx: true}; LockLedger returns {parent: c, hasTx: c.hasTx}.
    [pf] ("pre-fix") = true selects the HISTORICAL behaviour before the repair of finding KF-C31-first-write-event-before-commit
-   (LockLedger returned {parent: c}, i.e. hasTx = false: suspect S-31a).  The model tied to the code is pf = false. *)
+   (LockLedger returned {parent: c}, i.e. hasTx = false: suspect S-31a) -- and of KF-C31-replay-republishes, see ev_write.
+   The model tied to the code is pf = false. *)
 Definition begin_frame : frame := (true, []).
 Definition lock_frame (pf : bool) (parent : frame) : frame := (negb pf && fst parent, []).
 
@@ -164,14 +167,14 @@ Definition lock_frame (pf : bool) (parent : frame) : frame := (negb pf && fst pa
    inherited (suspect S-11: an atomic bulk calls the inherited BeginTX and never goes through handleState). *)
 Definition facade_write (pf : bool) (s : mst) (w : write) : mst * list act * wres :=
   if negb (initializing s) then
-    let '(s1, _, tr, r) := ev_write [root] false s w in (s1, tr, r)
+    let '(s1, _, tr, r) := ev_write pf [root] false s w in (s1, tr, r)
   else if cancelled s then (s, [], RsErr)                                  (* c.BeginTX fails *)
   else
     match w_out w with
     | WFailEarly => (s, [SqlBegin; SqlRollback], RsErr)
     | _ =>
       let txf := begin_frame in
-      let '(s1, stk, tr, r) := ev_write [lock_frame pf txf; txf; root] true s w in
+      let '(s1, stk, tr, r) := ev_write pf [lock_frame pf txf; txf; root] true s w in
       let txf' := nth 1 stk txf in
       match r with
       | RsErr => (s1, SqlBegin :: tr ++ ctrl_rollback s1, RsErr)
@@ -186,14 +189,14 @@ Definition facade_write (pf : bool) (s : mst) (w : write) : mst * list act * wre
 (* ---------- Bulker.run with parallelism 1 ----------
    a task first selects on ctx.Done() (=> result {Error: ctx.Err()}, element not processed, hasError untouched), then
    hasError && !continueOnFailure => context.Canceled, element not processed *)
-Fixpoint bulk_atomic_elems (cont : bool) (stk : list frame) (s : mst) (err : bool) (ws : list write)
+Fixpoint bulk_atomic_elems (pf cont : bool) (stk : list frame) (s : mst) (err : bool) (ws : list write)
   : mst * list frame * list act * bool :=
   match ws with
   | [] => (s, stk, [], err)
   | w :: r =>
-    if cancelled s || (err && negb cont) then bulk_atomic_elems cont stk s err r
-    else let '(s1, stk1, tr, x) := ev_write stk true s {| w_dry := false; w_out := w_out w |} in
-         let '(s2, stk2, tr2, err2) := bulk_atomic_elems cont stk1 s1 (err || negb (res_ok x)) r in
+    if cancelled s || (err && negb cont) then bulk_atomic_elems pf cont stk s err r
+    else let '(s1, stk1, tr, x) := ev_write pf stk true s {| w_dry := false; w_out := w_out w |} in
+         let '(s2, stk2, tr2, err2) := bulk_atomic_elems pf cont stk1 s1 (err || negb (res_ok x)) r in
          (s2, stk2, tr ++ tr2, err2)
   end.
 
@@ -209,24 +212,31 @@ Fixpoint bulk_plain_elems (pf cont : bool) (s : mst) (err : bool) (ws : list wri
 
 (* Bulker.Run: atomic => ctrl.BeginTX on the facade ; run ; hasError ? Rollback : Commit, all on the controller BeginTX
    returned: the events object {parent: root, hasTx: true} made by ControllerWithEvents.BeginTX on the root.
-   Since the repair of the facade (controllerFacade.BeginTX is no longer inherited) the transaction of an atomic bulk
-   on an initializing ledger starts with the prelude of handleState (pg_advisory_xact_lock, UPDATE _system.ledgers,
-   setval x2) executed through that same object; when a statement of the prelude fails (or the context is cancelled
-   there) BeginTX rolls back and Run returns before any element: that run is the one where the FIRST element's outcome
-   is WFailEarly (resp. WCancel false) -- the element fails ahead of its own sub-transaction, the bulk rolls back and,
-   not continuing on failure or cancelled, processes nothing else.  The frame stack is the same in both states.
-   processElement always passes DryRun: false. *)
-Definition bulk (pf atomic cont : bool) (s : mst) (ws : list write) : mst * list act :=
+   controllerFacade.BeginTX (no longer inherited since the repair of the facade): underlying BeginTX, then -- when the
+   facade's cached state is not in-use -- the prelude of handleState through that same object (LockLedger =
+   pg_advisory_xact_lock, markInUse = UPDATE _system.ledgers, setval x2); when a statement of the prelude fails or the
+   context is cancelled there, BeginTX rolls back and Run returns the error before any element is processed.  The
+   outcome of the prelude is the [bprelude] of the operation (irrelevant on an in-use ledger and for non-atomic bulks).
+   BeginTX does not update the cached state: a later atomic bulk runs the prelude again (the UPDATE then matches no row).
+   The frame stack of the elements is the same in both states.  processElement always passes DryRun: false. *)
+Inductive bprelude := BPOk | BPFail | BPCancel.
+
+Definition bulk (pf atomic cont : bool) (pre : bprelude) (s : mst) (ws : list write) : mst * list act :=
   if atomic then
-    let '(s1, stk, tr, err) := bulk_atomic_elems cont [begin_frame; root] s false ws in
-    if err then (s1, SqlBegin :: tr ++ ctrl_rollback s1)
-    else let '(s2, ctr, _) := ctrl_commit s1 (nth 0 stk begin_frame) in (s2, SqlBegin :: tr ++ ctr)
+    match (if initializing s then pre else BPOk) with
+    | BPFail => (s, [SqlBegin; SqlRollback])
+    | BPCancel => (with_cancelled s true, [SqlBegin; SqlRollback])
+    | BPOk =>
+      let '(s1, stk, tr, err) := bulk_atomic_elems pf cont [begin_frame; root] s false ws in
+      if err then (s1, SqlBegin :: tr ++ ctrl_rollback s1)
+      else let '(s2, ctr, _) := ctrl_commit s1 (nth 0 stk begin_frame) in (s2, SqlBegin :: tr ++ ctr)
+    end
   else let '(s1, tr, _) := bulk_plain_elems pf cont s false ws in (s1, tr).
 
 (* ---------- operations and histories ---------- *)
 Inductive eop :=
 | OWrite (w : write)
-| OBulk (atomic cont : bool) (ws : list write)
+| OBulk (atomic cont : bool) (pre : bprelude) (ws : list write)
 | OFailCommit (n : nat)       (* harness: arm the COMMIT fault switch *)
 | OCancelCommit (n : nat)     (* harness: arm the cancel-before-COMMIT switch *)
 | ODisarm.                    (* harness: switches off *)
@@ -235,7 +245,7 @@ Inductive eop :=
 Definition eop_run (pf : bool) (s : mst) (o : eop) : mst * list act :=
   match o with
   | OWrite w => let '(s1, tr, _) := facade_write pf (with_cancelled s false) w in (s1, tr)
-  | OBulk a c ws => bulk pf a c (with_cancelled s false) ws
+  | OBulk a c pre ws => bulk pf a c pre (with_cancelled s false) ws
   | OFailCommit n => (with_cfail s (Some n), [])
   | OCancelCommit n => (with_ccancel s (Some n), [])
   | ODisarm => (with_ccancel (with_cfail s None) None, [])
@@ -254,7 +264,7 @@ Definition trace_of (init : bool) (ops : list eop) : list act := snd (run_ops fa
 (* same, on a ledger whose log sequence stands at [n] (the harness prepares in-use ledgers with a few writes) *)
 Definition trace_from (init : bool) (n : Z) (ops : list eop) : list act :=
   snd (run_ops false (start init n) ops).
-(* historical variant (before the LockLedger repair); no longer tied to the code *)
+(* historical variant (before the LockLedger repair and before the replay repair); no longer tied to the code *)
 Definition trace_pre_fix (init : bool) (ops : list eop) : list act := snd (run_ops true (fresh init) ops).
 
 (* ---------- the property as an executable judgement on a trace ----------
@@ -300,23 +310,26 @@ Definition check (tr : list act) : verdict :=
   | inl c => if c_open c then VMalformed else match c_ready c with [] => VOk | l => VMissing l end
   end.
 
-(* hypotheses of the partial theorem *)
+(* hypotheses *)
 Definition write_no_hit (w : write) : bool := match w_out w with WHit _ => false | _ => true end.
-Definition eop_no_hit (o : eop) : bool :=
-  match o with OWrite w => write_no_hit w | OBulk _ _ ws => forallb write_no_hit ws | OFailCommit _ | OCancelCommit _ | ODisarm => true end.
+(* side condition of the historical (pre-fix) variant only: no idempotent replay.  Vacuous for the model of the code. *)
+Definition hit_ok (pf : bool) (w : write) : bool := negb pf || write_no_hit w.
+Definition eop_hit_ok (pf : bool) (o : eop) : bool :=
+  match o with OWrite w => hit_ok pf w | OBulk _ _ _ ws => forallb (hit_ok pf) ws | OFailCommit _ | OCancelCommit _ | ODisarm => true end.
 
 (* ---------- the scenario grid of the property's quantifier ----------
    context x outcome, on a ledger already in use unless the context says otherwise; in the bulk contexts the write
    under test is the middle element of [ok; w; ok] (processElement never passes DryRun, so dry-run is a single-call outcome
    only: in a bulk context ODry denotes the business failure of the element with continueOnFailure set). *)
 Inductive sctx := CSingle | CFirstWrite | CAtomicBulk | CPlainBulk | CAtomicBulkInit | CPlainBulkInit.
-Inductive sout := SOk | SFail | SDry | SCommitFail | SCancelCommit | SCancelStmt.
+Inductive sout := SOk | SFail | SDry | SCommitFail | SCancelCommit | SCancelStmt | SReplay.
 
 Definition wok : write := {| w_dry := false; w_out := WOk |}.
 Definition scenario_write (o : sout) : write :=
   match o with
   | SOk | SCommitFail | SCancelCommit => wok
   | SCancelStmt => {| w_dry := false; w_out := WCancel true |}
+  | SReplay => {| w_dry := false; w_out := WHit 1 |}        (* answered from log 1 *)
   | SFail => {| w_dry := false; w_out := WFail |}
   | SDry => {| w_dry := true; w_out := WOk |}
   end.
@@ -330,10 +343,10 @@ Definition scenario (c : sctx) (o : sout) : bool * list eop :=
   match c with
   | CSingle => (false, arm ++ [OWrite (scenario_write o)])
   | CFirstWrite => (true, arm ++ [OWrite (scenario_write o)])
-  | CAtomicBulk => (false, arm ++ [OBulk true cont bulk_ws])
-  | CPlainBulk => (false, arm ++ [OBulk false cont bulk_ws])
-  | CAtomicBulkInit => (true, arm ++ [OBulk true cont bulk_ws])
-  | CPlainBulkInit => (true, arm ++ [OBulk false cont bulk_ws])
+  | CAtomicBulk => (false, arm ++ [OBulk true cont BPOk bulk_ws])
+  | CPlainBulk => (false, arm ++ [OBulk false cont BPOk bulk_ws])
+  | CAtomicBulkInit => (true, arm ++ [OBulk true cont BPOk bulk_ws])
+  | CPlainBulkInit => (true, arm ++ [OBulk false cont BPOk bulk_ws])
   end.
 Definition scenario_trace (c : sctx) (o : sout) : list act :=
   trace_of (fst (scenario c o)) (snd (scenario c o)).
@@ -344,7 +357,8 @@ Definition scenario_trace_pre_fix (c : sctx) (o : sout) : list act :=
    when a write SUCCEEDED through the first-write path of handleState (LockLedger object had hasTx = false) *)
 Definition scenario_expected_pre_fix (c : sctx) (o : sout) : verdict :=
   match c, o with
-  | CFirstWrite, (SOk | SCommitFail | SCancelCommit) => VBeforeCommit 1
   | CPlainBulkInit, _ => VBeforeCommit 1
+  | _, SReplay => VNoWrite 1                       (* the stored log's event published a second time *)
+  | CFirstWrite, (SOk | SCommitFail | SCancelCommit) => VBeforeCommit 1
   | _, _ => VOk
   end.
